@@ -9,7 +9,8 @@ _spec = importlib.util.spec_from_file_location("c11", os.path.join(os.path.dirna
 c11 = importlib.util.module_from_spec(_spec)
 _spec.loader.exec_module(c11)
 
-BINDINGS_Q = [{"filler": 0, "paysz": 0}, {"filler": 60, "paysz": 40}, {"filler": 900, "paysz": 250}, {"filler": 30, "paysz": 5000}]
+BINDINGS_Q = [{"filler": 0, "paysz": 0}, {"filler": 60, "paysz": 40}, {"filler": 900, "paysz": 250}, {"filler": 30, "paysz": 5000},
+              {"filler": 25, "paysz": 64000, "paymin": 40000}]
 BINDINGS_T = BINDINGS_Q + [{"filler": 8000, "paysz": 80}, {"filler": 300, "paysz": 20000}]
 
 
@@ -51,7 +52,7 @@ def run(ctx):
             hist = json.dumps([x["a"] for x in c["steps"]])
             routes.setdefault(key, set()).add(hist)
             if key in seen and seen[key][0] != h:
-                ctx.violation("C12:history-dependent-hash", "same content %s under binding %s has roots %s and %s" %
+                ctx.violation("C12:history-dependent-hash" + (":huge-inline-value" if c["binding"].get("paymin", 0) >= 30000 else ""), "same content %s under binding %s has roots %s and %s" %
                               (s["exp"]["iter"], c["binding"], seen[key][0], h),
                               {"case": c, "other": seen[key][1], "reproduced": True})
             seen.setdefault(key, (h, c))
